@@ -271,13 +271,17 @@ def rules_for(desc):
     return rules
 
 
-def languagesystems_text(languagesystems):
+def languagesystems_text(languagesystems, given_order=False):
     """[(scriptTag, langTag)] -> statements (DFLT dflt first when present, as feaLib demands,
-    and every script's dflt before its other languages)."""
+    and every script's dflt before its other languages - unless `given_order`, which only moves
+    the DFLT script's statements to the front, as feaLib demands)."""
     ls = []
     for s, l in languagesystems or []:
         if (s, l) not in ls:
             ls.append((s, l))
+    if given_order:
+        ls.sort(key=lambda p: (p != ("DFLT", "dflt"), p[0] != "DFLT"))
+        return "".join("languagesystem %s %s;\n" % p for p in ls)
     # stable: DFLT dflt, then the other DFLT languages, then everything else in given order
     ls.sort(key=lambda p: (p != ("DFLT", "dflt"), p[0] != "DFLT"))
     out, seen = [], set()
@@ -308,12 +312,12 @@ def rules_text(rules, rng=None):
     return "".join(out)
 
 
-def gsub_alternates(rng, desc, languagesystems=None, rules=None):
+def gsub_alternates(rng, desc, languagesystems=None, rules=None, given_order=False):
     """Feature text (languagesystem statements + GSUB) and the rules as data.
     `languagesystems`: None (no statement at all) or a list of (scriptTag, langTag)."""
     if rules is None:
         rules = rules_for(desc)
-    text = languagesystems_text(languagesystems) + rules_text(rules, rng)
+    text = languagesystems_text(languagesystems, given_order) + rules_text(rules, rng)
     return text, rules
 
 
